@@ -1,6 +1,6 @@
 (* Search.v: code-shaped model of ai/minimax.go (pvSearch, zwSearch, ttGet/ttPut/teSuffices, recordCut, nullMoveOK, Analyze,
    AnalyzeAll) and ai/moves.go (moveGenerator), including cancellation: the context is cancelled inside the k-th leaf
-   evaluation of an Analyze call (cancel_at = k; 0 = never), which is how the harness injects it.
+   evaluation of an Analyze call (section variable cancel_at = k; 0 = never), which is how the harness injects it.
 
    The model describes the REPAIRED code of /repo:
      - 02f56c9  moveGenerator.snapshotTE: the generator works on a copy of the table entry taken when it is created;
@@ -41,9 +41,7 @@ Record sstate := {
   fpv : list (list rmove);          (* frame[ply].pv: 15 slots each *)
   fm : list rmove;                  (* frame[ply].m *)
   st : stats;
-  evals : Z;                        (* leaf evaluations since the start of this Analyze *)
-  cancel_at : Z }.                  (* 0 = never; k = the context is cancelled inside the k-th leaf evaluation *)
-Definition cancelled (s : sstate) : bool := (0 <? cancel_at s) && (cancel_at s <=? evals s).
+  evals : Z }.                      (* leaf evaluations since the start of this Analyze *)
 
 (* ---- small helpers ---- *)
 Definition rmove_eqb (a b : rmove) : bool := (mX a =? mX b) && (mY a =? mY b) && (mT a =? mT b)%N && (mS a =? mS b)%N.   (* struct equality *)
@@ -59,18 +57,22 @@ Definition znth {A} (l : list A) (i : Z) (d : A) : A := nth (Z.to_nat i) l d.
 Definition set_prefix (arr l : list rmove) : list rmove := l ++ skipn (length l) arr.
 
 Definition upd_st (s : sstate) (f : stats -> stats) : sstate :=
-  {| table := table s; history := history s; response := response s; fpv := fpv s; fm := fm s; st := f (st s); evals := evals s; cancel_at := cancel_at s |}.
+  {| table := table s; history := history s; response := response s; fpv := fpv s; fm := fm s; st := f (st s); evals := evals s |}.
 Definition set_table (s : sstate) (t : list entry) : sstate :=
-  {| table := t; history := history s; response := response s; fpv := fpv s; fm := fm s; st := st s; evals := evals s; cancel_at := cancel_at s |}.
+  {| table := t; history := history s; response := response s; fpv := fpv s; fm := fm s; st := st s; evals := evals s |}.
 Definition set_fpv (s : sstate) (ply : Z) (arr : list rmove) : sstate :=
-  {| table := table s; history := history s; response := response s; fpv := set_nth (fpv s) (Z.to_nat ply) arr; fm := fm s; st := st s; evals := evals s; cancel_at := cancel_at s |}.
+  {| table := table s; history := history s; response := response s; fpv := set_nth (fpv s) (Z.to_nat ply) arr; fm := fm s; st := st s; evals := evals s |}.
 Definition set_fm (s : sstate) (ply : Z) (m : rmove) : sstate :=
-  {| table := table s; history := history s; response := response s; fpv := fpv s; fm := set_nth (fm s) (Z.to_nat ply) m; st := st s; evals := evals s; cancel_at := cancel_at s |}.
+  {| table := table s; history := history s; response := response s; fpv := fpv s; fm := set_nth (fm s) (Z.to_nat ply) m; st := st s; evals := evals s |}.
 
 Section Srch.
 Variable pinned : bool.            (* true = the code before the repairs 02f56c9 / 8daa71e *)
 Variable basis : list N.
 Variable cfg : config.
+Variable cancel_at : Z.          (* 0 = never; k = the context of this Analyze call is cancelled inside its k-th leaf evaluation *)
+
+(* atomic.LoadInt32(ai.cancel) != 0 *)
+Definition cancelled (s : sstate) : bool := (0 <? cancel_at) && (cancel_at <=? evals s).
 
 Definition mvp := move_prealloc (hash_sq basis) false.
 Definition phash (p : position) : N := hash_of p.
@@ -171,7 +173,7 @@ Definition record_cut (s : sstate) (m : rmove) (mvno depth ply : Z) : sstate :=
   let inc := if (0 <=? depth) && (depth <? 63) then 2 ^ depth else 0 in
   let h := assoc_set m ((match assoc m (history s) with Some v => v | None => 0 end) + inc) (history s) in
   let r := if 0 <? ply then assoc_set (znth (fm s) (ply - 1) move0) m (response s) else response s in
-  {| table := table s; history := h; response := r; fpv := fpv s; fm := fm s; st := st s; evals := evals s; cancel_at := cancel_at s |}.
+  {| table := table s; history := h; response := r; fpv := fpv s; fm := fm s; st := st s; evals := evals s |}.
 
 Definition bump (s : sstate) (f : stats -> stats) := upd_st s f.
 Definition st_eval (over : bool) (t : stats) : stats :=
@@ -212,137 +214,159 @@ Definition tt_probe (s : sstate) (p : position) (ply depth a b : Z) : sstate * o
 Definition write_entry (s : sstate) (i : nat) (h : N) (depth : Z) (m : rmove) (v : Z) (bound : N) : sstate :=
   set_table s (set_nth (table s) i {| e_hash := h; e_value := v; e_m := m; e_bound := bound; e_depth := wrap8 depth |}).
 
-(* zw = true: zero-window search (β ignored, cut flag used); zw = false: pvSearch *)
-Fixpoint srch (fuel : nat) (zw : bool) (s : sstate) (p : position) (ply depth : Z) (pv : list rmove) (a b : Z) (cut : bool)
-  : sstate * (list rmove * Z) :=
-  match fuel with O => (s, ([], 0)) | S f =>
+(* ---- the two searches ----
+   One function for both: zw = true is zwSearch (β ignored, cut flag used), zw = false is pvSearch.  The recursion is on fuel
+   (maxDepth would do: depth decreases on every call); the child search is passed to the node function and to the three child
+   loops as [rec], so that facts about a loop can be proved from facts about the child search. *)
+Definition sres := (sstate * (list rmove * Z))%type.
+Definition rec_t := bool -> sstate -> position -> Z -> Z -> list rmove -> Z -> Z -> bool -> sres.      (* zw s p ply depth pv α β cut *)
+
+Definition count_eval (s : sstate) : sstate :=
+  {| table := table s; history := history s; response := response s; fpv := fpv s; fm := fm s; st := st s; evals := evals s + 1 |}.
+
+(* the multi-cut loop of zwSearch; m is the FIRST move throughout (the Go loop never reassigns it) *)
+Fixpoint mc_loop (rec : rec_t) (k : nat) (ply depth a : Z) (cut : bool) (m : rmove) (s : sstate) (g : mgen) (child : position) (i cuts : Z)
+  : sstate * mgen * bool :=
+  match k with O => (s, g, false) | S k' =>
+    if 6 <=? i then (s, g, false) else
+    let s := set_fm s ply m in
+    let '(s, (_, v)) := rec true s child (ply + 1) (depth - 1 - 2) [] (- a - 1) 0 (negb cut) in
+    let cuts := if a <? - v then cuts + 1 else cuts in
+    if (a <? - v) && (3 <=? cuts) then (bump s (st_add 0 0 0 0 0 0 0 0 0 0 1), g, true) else
+    let '(g', nx) := mg_next 700 s g in
+    match nx with Some (_, c') => mc_loop rec k' ply depth a cut m s g' c' (i + 1) cuts | None => (s, g', false) end
+  end.
+
+(* the child loop of zwSearch: result (state, best, didCut, aborted); aborted = the cancel flag was seen after a child: return nil, 0 *)
+Fixpoint zw_loop (rec : rec_t) (k : nat) (ply depth a : Z) (cut : bool) (s : sstate) (g : mgen) (i : Z) (best : list rmove)
+  : sstate * list rmove * bool * bool :=
+  match k with O => (s, best, false, false) | S k' =>
+    let '(g, nx) := mg_next 700 s g in
+    match nx with
+    | None => (s, best, false, false)
+    | Some (m, child) =>
+      let i := i + 1 in
+      let s := set_fm s ply m in
+      let '(s, (ms, v)) := rec true s child (ply + 1) (depth - 1) (tl best) (- a - 1) 0 (negb cut) in
+      if a <? - v then
+        let s := record_cut s m i depth ply in
+        let best := m :: ms in
+        (set_fpv s ply (set_prefix (znth (fpv s) ply []) best), best, true, false)
+      else if cancelled s then (s, best, false, true) else zw_loop rec k' ply depth a cut s g i best
+    end
+  end.
+
+(* the child loop of pvSearch: result (state, best, α, improved, aborted) *)
+Fixpoint pv_loop (rec : rec_t) (k : nat) (ply depth b : Z) (s : sstate) (g : mgen) (i : Z) (best : list rmove) (a : Z) (improved : bool)
+  : sstate * list rmove * Z * bool * bool :=
+  match k with O => (s, best, a, improved, false) | S k' =>
+    let '(g, nx) := mg_next 700 s g in
+    match nx with
+    | None => (s, best, a, improved, false)
+    | Some (m, child) =>
+      let i := i + 1 in
+      let s := set_fm s ply m in
+      let '(s, (ms, v)) :=
+        if 1 <? i then
+          let '(s, (ms, v)) := rec true s child (ply + 1) (depth - 1) (tl best) (- a - 1) 0 true in
+          if (a <? - v) && (- v <? b) then rec false (bump s (st_add 0 0 0 0 1 0 0 0 0 0 0)) child (ply + 1) (depth - 1) (tl best) (- b) (- a) true
+          else (s, (ms, v))
+        else rec false s child (ply + 1) (depth - 1) (tl best) (- b) (- a) true in
+      let v := - v in
+      if a <? v then
+        let best := m :: ms in
+        let s := set_fpv s ply (set_prefix (znth (fpv s) ply []) best) in
+        if b <=? v then (record_cut s m i depth ply, best, v, true, false)
+        else if cancelled s then (s, best, v, true, true) else pv_loop rec k' ply depth b s g i best v true
+      else if cancelled s then (s, best, a, improved, true) else pv_loop rec k' ply depth b s g i best a improved
+    end
+  end.
+
+(* zwSearch after the table probe *)
+Definition zw_node (rec : rec_t) (s : sstate) (te : option nat) (p : position) (ply depth : Z) (pv : list rmove) (a : Z) (cut : bool) : sres :=
+  let null_result : sstate * option (list rmove * Z) :=
+    if null_move_ok s ply depth p then
+      let s := set_fm s ply {| mX := 0; mY := 0; mT := 1; mS := 0 |} in
+      let s := bump s (st_add 0 0 0 0 0 0 1 0 0 0 0) in
+      let '(s, (_, v)) := rec true s (pass_move p) (ply + 1) (depth - 3) [] (- a - 1) 0 true in
+      if a + 1 <=? - v then (bump s (st_add 0 0 0 0 0 0 0 1 0 0 0), Some ([], - v)) else (s, None)
+    else (s, None) in
+  let '(s, nr) := null_result in
+  match nr with Some r => (s, r) | None =>
+  let '(s, depth) :=
+    if negb (c_noreduce cfg) && (0 <? ply) then
+      let m := znth (fm s) (ply - 1) move0 in
+      if (5 <=? mT m)%N && (15 <? mS m)%N then
+        let sz := wrap8 (Z.of_N (size p)) in
+        let i := wrap8 (mX m + wrap8 (mY m * sz)) in
+        let l := Z.of_nat (length (nibbles 8 (mS m))) in
+        let '(dx, dy) := if (mT m =? 5)%N then (wrap8 (mX m - l), mY m) else if (mT m =? 6)%N then (wrap8 (mX m + l), mY m)
+                         else if (mT m =? 7)%N then (mX m, wrap8 (mY m + l)) else (mX m, wrap8 (mY m - l)) in
+        let j := wrap8 (dx + wrap8 (dy * sz)) in
+        if (nthN (Height p) (Z.to_N i) =? 0)%N && (Z.of_N (nthN (Height p) (Z.to_N j)) =? Z.of_N (N.land (mS m) 15))
+        then (bump s (st_add 0 0 0 0 0 0 0 0 1 0 0), depth - 2) else (s, depth)
+      else (s, depth)
+    else (s, depth) in
+  let g0 := new_gen s te pv ply depth p in
+  (* multi-cut *)
+  let mc : sstate * mgen * bool :=
+    if c_multicut cfg && cut && (3 <? depth) then
+      let s := bump s (st_add 0 0 0 0 0 0 0 0 0 1 0) in
+      let '(g1, first) := mg_next 700 s g0 in
+      match first with
+      | None => (s, g1, false)
+      | Some (m, child0) => mc_loop rec 8%nat ply depth a cut m s g1 child0 0 0
+      end
+    else (s, g0, false) in
+  let '(s, g, mccut) := mc in
+  if mccut then (s, ([], a + 1)) else
+  let g := set_i g 0 in
+  let best0 := firstn 1 (znth (fpv s) ply []) in
+  let '(s, best, didcut, aborted) := zw_loop rec 700%nat ply depth a cut s g 0 best0 in
+  if aborted then (s, ([], 0)) else
+  let '(s, slot) := tt_put s (phash p) in
+  let s := match slot with
+           | Some i => let s := write_entry s i (phash p) depth (hd move0 best) a (if didcut then 0%N else 2%N) in
+                       if didcut then s else bump s (st_add 0 0 0 0 0 1 0 0 0 0 0)
+           | None => s end in
+  (s, (best, if didcut then a + 1 else a))
+  end.
+
+(* pvSearch after the table probe *)
+Definition pv_node (rec : rec_t) (s : sstate) (te : option nat) (p : position) (ply depth : Z) (pv : list rmove) (a b : Z) : sres :=
+  let g0 := new_gen s te pv ply depth p in
+  let arr0 := znth (fpv s) ply [] in
+  let best0 := match pv with [] => firstn 1 arr0 | _ => pv end in
+  let s := set_fpv s ply (set_prefix arr0 best0) in
+  let '(s, best, a', improved, aborted) := pv_loop rec 700%nat ply depth b s g0 0 best0 a false in
+  if aborted then (s, ([], 0)) else
+  let h := phash p in
+  let '(s, slot) := tt_put s h in
+  let s := match slot with
+           | Some i =>
+             let te1 := nth i (table s) entry0 in
+             if negb (e_hash te1 =? h)%N || (e_depth te1 <=? depth) then
+               let s := write_entry s i h depth (hd move0 best) a' (if negb improved then 2%N else if b <=? a' then 0%N else 1%N) in
+               if negb improved then bump s (st_add 0 0 0 0 0 1 0 0 0 0 0) else s
+             else s
+           | None => s end in
+  (s, (best, a')).
+
+(* one node: leaf test, counters, table probe, then zw_node / pv_node *)
+Definition srch_step (rec : rec_t) : rec_t := fun zw s p ply depth pv a b cut =>
   let over := is_over p in
-  if (depth <=? 0) || over then
-    (let s := bump s (st_eval over) in
-     {| table := table s; history := history s; response := response s; fpv := fpv s; fm := fm s; st := st s;
-        evals := evals s + 1; cancel_at := cancel_at s |}, ([], c_eval cfg p)) else
+  if (depth <=? 0) || over then (count_eval (bump s (st_eval over)), ([], c_eval cfg p)) else
   let s := bump s (st_add 1 (if zw then 1 else if b =? a + 1 then 1 else 0) 0 0 0 0 0 0 0 0 0) in
   let '(s, te, ret) := tt_probe s p ply depth a (if zw then a + 1 else b) in
-  match ret with Some r => (s, r) | None =>
-  if zw then
-    (* ---- zwSearch ---- *)
-    let null_result : sstate * option (list rmove * Z) :=
-      if null_move_ok s ply depth p then
-        let s := set_fm s ply {| mX := 0; mY := 0; mT := 1; mS := 0 |} in
-        let s := bump s (st_add 0 0 0 0 0 0 1 0 0 0 0) in
-        let '(s, (_, v)) := srch f true s (pass_move p) (ply + 1) (depth - 3) [] (- a - 1) 0 true in
-        if a + 1 <=? - v then (bump s (st_add 0 0 0 0 0 0 0 1 0 0 0), Some ([], - v)) else (s, None)
-      else (s, None) in
-    let '(s, nr) := null_result in
-    match nr with Some r => (s, r) | None =>
-    let '(s, depth) :=
-      if negb (c_noreduce cfg) && (0 <? ply) then
-        let m := znth (fm s) (ply - 1) move0 in
-        if (5 <=? mT m)%N && (15 <? mS m)%N then
-          let sz := wrap8 (Z.of_N (size p)) in
-          let i := wrap8 (mX m + wrap8 (mY m * sz)) in
-          let l := Z.of_nat (length (nibbles 8 (mS m))) in
-          let '(dx, dy) := if (mT m =? 5)%N then (wrap8 (mX m - l), mY m) else if (mT m =? 6)%N then (wrap8 (mX m + l), mY m)
-                           else if (mT m =? 7)%N then (mX m, wrap8 (mY m + l)) else (mX m, wrap8 (mY m - l)) in
-          let j := wrap8 (dx + wrap8 (dy * sz)) in
-          if (nthN (Height p) (Z.to_N i) =? 0)%N && (Z.of_N (nthN (Height p) (Z.to_N j)) =? Z.of_N (N.land (mS m) 15))
-          then (bump s (st_add 0 0 0 0 0 0 0 0 1 0 0), depth - 2) else (s, depth)
-        else (s, depth)
-      else (s, depth) in
-    let g0 := new_gen s te pv ply depth p in
-    (* multi-cut *)
-    let mc : sstate * mgen * bool :=
-      if c_multicut cfg && cut && (3 <? depth) then
-        let s := bump s (st_add 0 0 0 0 0 0 0 0 0 1 0) in
-        let '(g1, first) := mg_next 700 s g0 in
-        match first with
-        | None => (s, g1, false)
-        | Some (m, child0) =>
-          (fix mcl (k : nat) (s : sstate) (g : mgen) (child : position) (i cuts : Z) : sstate * mgen * bool :=
-             match k with O => (s, g, false) | S k' =>
-               if 6 <=? i then (s, g, false) else
-               let s := set_fm s ply m in
-               let '(s, (_, v)) := srch f true s child (ply + 1) (depth - 1 - 2) [] (- a - 1) 0 (negb cut) in
-               let cuts := if a <? - v then cuts + 1 else cuts in
-               if (a <? - v) && (3 <=? cuts) then (bump s (st_add 0 0 0 0 0 0 0 0 0 0 1), g, true) else
-               let '(g', nx) := mg_next 700 s g in
-               match nx with Some (_, c') => mcl k' s g' c' (i + 1) cuts | None => (s, g', false) end
-             end) 8%nat s g1 child0 0 0
-        end
-      else (s, g0, false) in
-    let '(s, g, mccut) := mc in
-    if mccut then (s, ([], a + 1)) else
-    let g := set_i g 0 in
-    let arr0 := znth (fpv s) ply [] in
-    let best0 := firstn 1 arr0 in
-    let '(s, best, didcut) :=
-      (fix loop (k : nat) (s : sstate) (g : mgen) (i : Z) (best : list rmove) : sstate * list rmove * bool :=
-         match k with O => (s, best, false) | S k' =>
-           let '(g, nx) := mg_next 700 s g in
-           match nx with
-           | None => (s, best, false)
-           | Some (m, child) =>
-             let i := i + 1 in
-             let s := set_fm s ply m in
-             let '(s, (ms, v)) := srch f true s child (ply + 1) (depth - 1) (tl best) (- a - 1) 0 (negb cut) in
-             if a <? - v then
-               let s := record_cut s m i depth ply in
-               let best := m :: ms in
-               (set_fpv s ply (set_prefix (znth (fpv s) ply []) best), best, true)
-             else if cancelled s then (s, [], false) else loop k' s g i best
-           end
-         end) 700%nat s g 0 best0 in
-    if negb didcut && cancelled s && match best with [] => true | _ => false end then (s, ([], 0)) else
-    let '(s, slot) := tt_put s (phash p) in
-    let s := match slot with
-             | Some i => let s := write_entry s i (phash p) depth (hd move0 best) a (if didcut then 0%N else 2%N) in
-                         if didcut then s else bump s (st_add 0 0 0 0 0 1 0 0 0 0 0)
-             | None => s end in
-    (s, (best, if didcut then a + 1 else a))
-    end
-  else
-    (* ---- pvSearch ---- *)
-    let g0 := new_gen s te pv ply depth p in
-    let arr0 := znth (fpv s) ply [] in
-    let best0 := match pv with [] => firstn 1 arr0 | _ => pv end in
-    let s := set_fpv s ply (set_prefix arr0 best0) in
-    let '(s, best, a', improved) :=
-      (fix loop (k : nat) (s : sstate) (g : mgen) (i : Z) (best : list rmove) (a : Z) (improved : bool) : sstate * list rmove * Z * bool :=
-         match k with O => (s, best, a, improved) | S k' =>
-           let '(g, nx) := mg_next 700 s g in
-           match nx with
-           | None => (s, best, a, improved)
-           | Some (m, child) =>
-             let i := i + 1 in
-             let s := set_fm s ply m in
-             let '(s, (ms, v)) :=
-               if 1 <? i then
-                 let '(s, (ms, v)) := srch f true s child (ply + 1) (depth - 1) (tl best) (- a - 1) 0 true in
-                 if (a <? - v) && (- v <? b) then srch f false (bump s (st_add 0 0 0 0 1 0 0 0 0 0 0)) child (ply + 1) (depth - 1) (tl best) (- b) (- a) true
-                 else (s, (ms, v))
-               else srch f false s child (ply + 1) (depth - 1) (tl best) (- b) (- a) true in
-             let v := - v in
-             if a <? v then
-               let best := m :: ms in
-               let s := set_fpv s ply (set_prefix (znth (fpv s) ply []) best) in
-               if b <=? v then (record_cut s m i depth ply, best, v, true)
-               else if cancelled s then (s, [], 0, false) else loop k' s g i best v true
-             else if cancelled s then (s, [], 0, false) else loop k' s g i best a improved
-           end
-         end) 700%nat s g0 0 best0 a false in
-    if cancelled s && match best with [] => true | _ => false end then (s, ([], 0)) else
-    let h := phash p in
-    let '(s, slot) := tt_put s h in
-    let s := match slot with
-             | Some i =>
-               let te1 := nth i (table s) entry0 in
-               if negb (e_hash te1 =? h)%N || (e_depth te1 <=? depth) then
-                 let s := write_entry s i h depth (hd move0 best) a' (if negb improved then 2%N else if b <=? a' then 0%N else 1%N) in
-                 if negb improved then bump s (st_add 0 0 0 0 0 1 0 0 0 0 0) else s
-               else s
-             | None => s end in
-    (s, (best, a'))
-  end
+  match ret with
+  | Some r => (s, r)
+  | None => if zw then zw_node rec s te p ply depth pv a cut else pv_node rec s te p ply depth pv a b
+  end.
+
+Fixpoint srch (fuel : nat) : rec_t :=
+  match fuel with
+  | O => fun zw s p ply depth pv a b cut => (s, ([], 0))
+  | S f => srch_step (srch f)
   end.
 
 (* Analyze: iterative deepening (no deadline, no MaxEvals); result = (pv, value, Stats.Depth, merged Stats, Stats.Canceled) *)
@@ -354,33 +378,45 @@ Definition st_merge (a b : stats) : stats :=
      s_nullsearch := s_nullsearch a + s_nullsearch b; s_nullcut := s_nullcut a + s_nullcut b; s_reduced := s_reduced a + s_reduced b;
      s_mcsearch := s_mcsearch a + s_mcsearch b; s_mccut := s_mccut a + s_mccut b |}.
 
-Definition analyze_gen (s0 : sstate) (p : position) : sstate * (list rmove * Z * Z * stats * bool) :=
-  let s0 := {| table := table s0; history := map (fun kv => (fst kv, Z.quot (snd kv) 2)) (history s0); response := response s0;
-               fpv := fpv s0; fm := fm s0; st := st s0; evals := 0; cancel_at := cancel_at s0 |} in
-  let '(base, ms0, v0) := match tt_get s0 (phash p) with
-                      | Some i => let te := nth i (table s0) entry0 in
-                                  if (e_bound te =? 1)%N then (e_depth te, [e_m te], if pinned then 0 else e_value te) else (0, [], 0)
-                      | None => (0, [], 0) end in
-  (fix iter (k : nat) (i : Z) (s : sstate) (ms : list rmove) (v : Z) (acc : stats) (d : Z) : sstate * (list rmove * Z * Z * stats * bool) :=
-     match k with O => (s, (ms, v, d, acc, false)) | S k' =>
-       if c_depth cfg <? i + base then (s, (ms, v, d, acc, false)) else
-       let s := {| table := table s; history := history s; response := response s; fpv := fpv s; fm := fm s; st := stats0; evals := evals s; cancel_at := cancel_at s |} in
-       let '(s, (next, nv)) := srch 40 false s p 0 (i + base) ms (MinEval - 1) (MaxEval + 1) true in
-       match (if cancelled s then [] else next) with
-       | [] => (s, (ms, v, d, acc, true))
-       | _ =>
-         let acc := st_merge (st s) acc in
-         if (WinThreshold <? nv) || (nv <? - WinThreshold) then (s, (next, nv, i + base, acc, false))
-         else iter k' (i + 1) s next nv acc (i + base)
-       end
-     end) 16%nat 1 s0 ms0 v0 stats0 base.
+(* the iterative-deepening loop of Analyze; dmax = Cfg.Depth (read by this loop only), d = Stats.Depth so far *)
+Definition reset_st (s : sstate) : sstate :=
+  {| table := table s; history := history s; response := response s; fpv := fpv s; fm := fm s; st := stats0; evals := evals s |}.
+Definition ares := (sstate * (list rmove * Z * Z * stats * bool))%type.
+Fixpoint az_iter (dmax base : Z) (p : position) (k : nat) (i : Z) (s : sstate) (ms : list rmove) (v : Z) (acc : stats) (d : Z) : ares :=
+  match k with O => (s, (ms, v, d, acc, false)) | S k' =>
+    if dmax <? i + base then (s, (ms, v, d, acc, false)) else
+    let s := reset_st s in
+    let '(s, (next, nv)) := srch 40 false s p 0 (i + base) ms (MinEval - 1) (MaxEval + 1) true in
+    match (if cancelled s then [] else next) with
+    | [] => (s, (ms, v, d, acc, true))
+    | _ =>
+      let acc := st_merge (st s) acc in
+      if (WinThreshold <? nv) || (nv <? - WinThreshold) then (s, (next, nv, i + base, acc, false))
+      else az_iter dmax base p k' (i + 1) s next nv acc (i + base)
+    end
+  end.
 
-Definition with_cancel (s : sstate) (k : Z) : sstate :=
-  {| table := table s; history := history s; response := response s; fpv := fpv s; fm := fm s; st := st s; evals := 0; cancel_at := k |}.
+(* history halving, evaluation counter reset *)
+Definition az_start (s0 : sstate) : sstate :=
+  {| table := table s0; history := map (fun kv => (fst kv, Z.quot (snd kv) 2)) (history s0); response := response s0;
+     fpv := fpv s0; fm := fm s0; st := st s0; evals := 0 |}.
+(* the exact root entry: (base, ms, v) *)
+Definition az_root (s0 : sstate) (p : position) : Z * list rmove * Z :=
+  match tt_get s0 (phash p) with
+  | Some i => let te := nth i (table s0) entry0 in
+              if (e_bound te =? 1)%N then (e_depth te, [e_m te], if pinned then 0 else e_value te) else (0, [], 0)
+  | None => (0, [], 0) end.
+
+Definition analyze_depth (dmax : Z) (s0 : sstate) (p : position) : ares :=
+  let s0 := az_start s0 in
+  let '(base, ms0, v0) := az_root s0 p in
+  az_iter dmax base p 16%nat 1 s0 ms0 v0 stats0 base.
+
+Definition analyze_gen (s0 : sstate) (p : position) : ares := analyze_depth (c_depth cfg) s0 p.
 
 Definition new_state (table_entries : nat) : sstate :=
   {| table := repeat entry0 table_entries; history := []; response := []; fpv := repeat (repeat move0 max_depth) max_depth;
-     fm := repeat move0 max_depth; st := stats0; evals := 0; cancel_at := 0 |}.
+     fm := repeat move0 max_depth; st := stats0; evals := 0 |}.
 
 (* AnalyzeAll: Analyze, then every root move is searched with the window (v-1, v+1); result = (lines, value, depth, canceled) *)
 Definition analyze_all_gen (s0 : sstate) (p : position) : sstate * (list (list rmove) * Z * Z * bool) :=
@@ -409,13 +445,12 @@ Definition analyze_all_gen (s0 : sstate) (p : position) : sstate * (list (list r
 End Srch.
 
 (* the repaired code (what /repo contains now) *)
-Definition analyze_search := analyze_gen false.
-Definition analyze_all := analyze_all_gen false.
-Definition srch_fixed := srch false.
+Definition analyze_search (basis : list N) (cfg : config) := analyze_gen false basis cfg 0.                 (* never cancelled *)
+Definition analyze_cancel (basis : list N) (cfg : config) (k : Z) := analyze_gen false basis cfg k.         (* cancelled inside the k-th leaf evaluation *)
+Definition analyze_limited (basis : list N) (cfg : config) (d : Z) := analyze_depth false basis cfg 0 d.    (* uninterrupted, Cfg.Depth = d *)
+Definition analyze_all (basis : list N) (cfg : config) := analyze_all_gen false basis cfg 0.
 (* the code before the repairs *)
-Definition analyze_pinned := analyze_gen true.
-(* an Analyze call whose context is cancelled inside the k-th leaf evaluation (k = 0: never) *)
-Definition analyze_cancel (basis : list N) (cfg : config) (k : Z) (s : sstate) (p : position) := analyze_search basis cfg (with_cancel s k) p.
+Definition analyze_pinned (basis : list N) (cfg : config) (k : Z) := analyze_gen true basis cfg k.
 
 (* ai.EvaluateWinner *)
 Definition evaluate_winner (p : position) : Z :=
